@@ -30,6 +30,7 @@ inductive Val
   | flag (b : Bool)
   | license (l : Codec.License)
   | origin (cat : Option Str) (o : Codec.Origin)
+  | map (m : List (Str × Str))                   -- `HashMap<String, String>` as an association list
   | panic                                        -- the real getter panics here
   | unmodelled                                   -- the model has no reading (harness only)
   deriving DecidableEq, Repr
@@ -120,22 +121,22 @@ def sortStrs : List Str → List Str
   | [] => []
   | x :: xs => insertSorted x (sortStrs xs)
 
-/-- `HashMap::insert` on an association list: a later value for the same key replaces the earlier -/
-def envInsert (k v : Str) : List (Str × Str) → List (Str × Str)
-  | [] => [(k, v)]
-  | p :: r => if p.1 = k then (k, v) :: r else p :: envInsert k v r
+/-- `format!("{}={}", key, value)` -/
+def envPiece (p : Str × Str) : Str := p.1 ++ '=' :: p.2
 
-/-- `environment()`: one `KEY=value` per line, split at the first `=` (`unwrap`: a line without `=`
-    panics); as the sorted list of `KEY=value` of the resulting map -/
+/-- the loop of `environment()`: `split_once('=')` per line (`unwrap`: a line without `=` panics),
+    collected into a `HashMap` (kept key-sorted; `Codec.mapInsert` = `HashMap::insert`) -/
+def envLines : List Str → List (Str × Str) → Option (List (Str × Str))
+  | [], m => some m
+  | l :: ls, m =>
+    match Codec.splitOnFirst ['='] l with
+    | some r => envLines ls (Codec.mapInsert r.1 r.2 m)
+    | none => none
+
+/-- `environment()` on the field text -/
 def decodeEnv (raw : Str) : Val :=
-  let rec go : List Str → List (Str × Str) → Option (List (Str × Str))
-    | [], m => some m
-    | l :: ls, m =>
-      match Codec.splitOnFirst ['='] l with
-      | some r => go ls (envInsert r.1 r.2 m)
-      | none => none
-  match go (lines raw) [] with
-  | some m => .list (sortStrs (m.map fun p => p.1 ++ '=' :: p.2))
+  match envLines (lines raw) [] with
+  | some m => .map m
   | none => .panic
 
 def vcsPrefix : Str := "Vcs-".toList
@@ -153,6 +154,33 @@ def vcsScan : List (Str × Str) → Val
         | some v => .text (v.toField.1 ++ ' ' :: v.toField.2)
         | none => .absent
       | none => vcsScan fs
+
+def bugKey : Str := "Bug".toList
+def bugPrefix : Str := "Bug-".toList
+
+/-- DEP-3 `bugs()`: `(Some(vendor), url)` for every `Bug-<vendor>` item, `(None, url)` for every
+    `Bug` item, in paragraph order; printed `<vendor>=<url>` (no vendor: `=<url>`) as the harness does -/
+def bugsScan (l : List (Str × Str)) : List Str :=
+  l.filterMap fun f =>
+    match stripPrefix bugPrefix f.1 with
+    | some vendor => some (vendor ++ '=' :: f.2)
+    | none => if f.1 = bugKey then some ('=' :: f.2) else none
+
+/-- instantiate a name template: `pre{param}post` with the argument ↦ `pre ++ arg ++ post`;
+    a name without `{` is itself -/
+def substName (arg : Str) (name : Str) : Str :=
+  match Codec.splitOnFirst ['{'] name with
+  | none => name
+  | some r =>
+    match Codec.splitOnFirst ['}'] r.2 with
+    | some q => r.1 ++ arg ++ q.2
+    | none => name
+
+def isTemplate (name : Str) : Bool := name.contains '{'
+
+/-- the row of a method with a field-name parameter, for one argument -/
+def Row.inst (r : Row) (arg : Str) : Row :=
+  { r with names := r.names.map (substName arg), dflt := substName arg r.dflt }
 
 /-- DEC: the reading of a raw field text -/
 def decode (sh : Shape) (strict assume : Bool) (raw : Str) : Val :=
@@ -204,7 +232,7 @@ def encode (sh : Shape) (v : Val) : Option Str :=
   | .originField, .origin c o => some (Codec.formatOrigin c o)
   | .rfc2822, .text s => some s
   | .dateYmd, .text s => some s
-  | .envMap, .list l => some (join ['\n'] (sortStrs l))
+  | .envMap, .map m => some (join ['\n'] (sortStrs (m.map envPiece)))
   | _, _ => none
 
 /-- first line of a field text / what follows its first newline -/
@@ -267,7 +295,9 @@ def getSem (r : Row) (assume : Bool) (cs : List DNode) : Val :=
     | none => absentVal r
     | some raw => decode r.shape r.strict assume raw
   | .items =>
-    if r.shape == .vcsScan then vcsScan (items (.node .PARAGRAPH cs)) else .unmodelled
+    if r.shape == .vcsScan then vcsScan (items (.node .PARAGRAPH cs))
+    else if r.shape == .bugsScan then .list (bugsScan (items (.node .PARAGRAPH cs)))
+    else .unmodelled
   | _ => .unmodelled
 
 def applyOp (op : POp) (cs : List DNode) (k v : Str) : Option (List DNode) :=
@@ -320,6 +350,44 @@ def addPara (d : Doc) (k v : Str) : Doc :=
   let d1 := addParagraph d
   d1.onPara (d1.handles.length - 1) (fun cs => paraSet cs k v)
 
+/-- `paragraphs().next()` -/
+def firstPara (root : DNode) : Option DNode := (paragraphs root).head?
+
+/-- `paragraphs().filter(|p| !p.contains_key(excl) && p.contains_key(k))` -/
+def filterParaWithout (root : DNode) (k excl : Str) : List DNode :=
+  (paragraphs root).filter fun p => !hasField excl p && hasField k p
+
+/-- the paragraphs a document-level getter row yields -/
+def paraSem (r : Row) (root : DNode) : Option (List DNode) :=
+  match r.shape, r.names with
+  | .firstPara, [] => some (firstPara root).toList
+  | .findPara, [k] => some (findPara root k).toList
+  | .filterPara, [k] => some (filterPara root k)
+  | .filterParaWithout excl, [k] => some (filterParaWithout root k excl)
+  | _, _ => none
+
+/-! ## copyright `Header::fix` -/
+
+def fFormat : Str := "Format".toList
+def fFormatSpec : Str := "Format-Specification".toList
+
+/-- the format string after `fix`: a trailing `/` is added, `http:` becomes `https:`, a known
+    format becomes the current one -/
+def normFormat (f : Str) : Str :=
+  let f1 := if f.getLast? = some '/' then f else f ++ ['/']
+  let f2 := match stripPrefix "http:".toList f1 with
+    | some rest => "https:".toList ++ rest
+    | none => f1
+  if Gen.Accessors.copyrightKnownFormats.contains f2 then Gen.Accessors.copyrightCurrentFormat else f2
+
+/-- `Header::fix`: rename `Format-Specification` to `Format` (first such field), then rewrite the
+    `Format` value in place -/
+def fixSem (cs : List DNode) : List DNode :=
+  let cs1 := if (pget cs fFormatSpec).isSome then (paraRename cs fFormatSpec fFormat).1 else cs
+  match pget cs1 fFormat with
+  | some f => paraSet cs1 fFormat (normFormat f)
+  | none => cs1
+
 /-! ## the documented field name of an accessor -/
 
 def capWord : Str → Str
@@ -351,7 +419,7 @@ def docExceptions : List ((Str × Str) × (Option Str × List Str)) := [
   (("apt.Package".toList, "description_md5".toList), (some "Description-md5".toList, [])),
   (("apt.Package".toList, "md5sum".toList), (some "MD5sum".toList, [])),
   (("apt.Package".toList, "sha256".toList), (some "SHA256".toList, [])),
-  (("apt.Package".toList, "tags".toList), (none, [])),
+  (("apt.Package".toList, "tags".toList), (some "{tag}".toList, [])),
   (("apt.Release".toList, "checksums_md5".toList), (some "MD5Sum".toList, [])),
   (("apt.Release".toList, "checksums_sha1".toList), (some "SHA1".toList, [])),
   (("apt.Release".toList, "checksums_sha256".toList), (some "SHA256".toList, [])),
@@ -360,7 +428,7 @@ def docExceptions : List ((Str × Str) × (Option Str × List Str)) := [
   (("buildinfo.Buildinfo".toList, "binaries".toList), (some "Binary".toList, [])),
   (("copyright.Copyright".toList, "header".toList), (none, [])),
   (("copyright.Copyright".toList, "iter_files".toList), (some "Files".toList, [])),
-  (("copyright.Copyright".toList, "iter_licenses".toList), (none, [])),
+  (("copyright.Copyright".toList, "iter_licenses".toList), (some "License".toList, [])),
   (("copyright.Copyright".toList, "find_files".toList), (none, [])),
   (("copyright.Copyright".toList, "find_license_by_name".toList), (none, [])),
   (("copyright.Copyright".toList, "find_license_for_file".toList), (none, [])),
@@ -373,7 +441,7 @@ def docExceptions : List ((Str × Str) × (Option Str × List Str)) := [
   (("dep3.PatchHeader".toList, "bugs".toList), (none, [])),
   (("dep3.PatchHeader".toList, "vendor_bugs".toList), (none, [])),
   (("dep3.PatchHeader".toList, "upstream_bug".toList), (some "Bug".toList, [])),
-  (("dep3.PatchHeader".toList, "vendor_bug".toList), (none, [])),
+  (("dep3.PatchHeader".toList, "vendor_bug".toList), (some "Bug-{vendor}".toList, [])),
   (("dep3.PatchHeader".toList, "description".toList), (some "Description".toList, ["Subject".toList])),
   (("dep3.PatchHeader".toList, "long_description".toList), (some "Description".toList, ["Subject".toList]))
 ]
